@@ -6,6 +6,7 @@ ID, N, caught = sys.argv[1], sys.argv[2], sys.argv[3]
 extra = sys.argv[4] if len(sys.argv) > 4 else ""
 src = "/tmp/mut/%s-out" % ID
 dst = "/verif/seeded/%s-%s" % (ID, N)
+PROP = ID[:3]
 os.makedirs(dst, exist_ok=True)
 shutil.copy(os.path.join(src, "patch%s.diff" % N), os.path.join(dst, "patch.diff"))
 demos = glob.glob(os.path.join(src, "demo%s.*" % N))
@@ -14,11 +15,11 @@ for d in demos:
     shutil.copy(d, os.path.join(dst, os.path.basename(d)))
 notes = open(os.path.join(src, "notes%s.md" % N)).read() if os.path.exists(os.path.join(src, "notes%s.md" % N)) else ""
 shutil.copy(os.path.join(src, "notes%s.md" % N), os.path.join(dst, "notes.md")) if notes else None
-meta = dict(breaks_property=ID, origin="independent sub-agent given only the property text and a scratch worktree",
+meta = dict(breaks_property=PROP, origin="independent sub-agent given only the property text and a scratch worktree",
             needs_to_manifest=notes.strip().split("\n\n")[0][:1200] if notes else "",
             demonstration=[os.path.basename(d) for d in demos],
             confirmed_by=["tools/confirm_mutant.sh %s %s  (scratch worktree: builds, 47/47 tests pass with the change, demo passes without and fails with it)" % (ID, N)],
-            checks_run=["tools/run_mutant.sh seeded/%s-%s/patch.diff quick %s  (git -C /repo apply; ./check; git -C /repo checkout -- .)" % (ID, N, ID)],
+            checks_run=["tools/run_mutant.sh seeded/%s-%s/patch.diff quick %s  (git -C /repo apply; ./check; git -C /repo checkout -- .)" % (ID, N, PROP)],
             caught_by=[c for c in caught.split(",") if c and c != "-"], remarks=extra)
 json.dump(meta, open(os.path.join(dst, "meta.json"), "w"), indent=1)
 print("kept", dst, "caught_by", meta["caught_by"])
